@@ -336,6 +336,16 @@ DClone(D, cap, then, on, survivor, res) ==
      /\ res.dk = r.dk \cup DKT(gone) /\ res.dv = r.dv \cup (DVT(gone) \ {0})
      /\ res.lk = {} /\ res.lv = {}
 
+\* clone_from: afterwards the destination holds exactly the entries of the source (made of one
+\* clone per object) and compares equal to it; the source is untouched; whatever the destination
+\* held before is destroyed (the destination itself is dropped at the end of the step)
+DCloneFrom(D, op, res) ==
+  LET C == DCloneSet(D) IN
+  /\ res.post = D /\ res.lk = {} /\ res.lv = {}
+  /\ DNoRepeat(res.ret.cl) /\ DRange(res.ret.cl) = {DJEnt(e) : e \in C} /\ res.ret.eq
+  /\ res.dk \cap DKT(D) = {} /\ res.dv \cap DVT(D) = {}
+  /\ DKT(C) \subseteq res.dk /\ {60 + i : i \in 1..Len(op.dst)} \subseteq res.dk
+
 \* ---------------------------------------------------------------- serde --
 \* exactly len() entries are announced and emitted; decoding into a container of
 \* sufficient capacity gives one equal to the original
@@ -389,6 +399,7 @@ DictAllows(D, cap, op, res) ==
     [] op.name \in {"s_from_iter", "s_from_array"} -> DSFromIter(cap, op.items, res)
     [] op.name = "s_fmt"            -> DFmt(D, res)
     [] op.name = "clone"            -> DClone(D, cap, op.then, op.on, op.survivor, res)
+    [] op.name \in {"clone_from", "s_clone_from"} -> DCloneFrom(D, op, res)
     [] op.name = "serde"            -> DSerde(D, op.m, res)
 
 =============================================================================
